@@ -43,6 +43,82 @@ pub mod lifted {
         }
     }
     include!(concat!(env!("VERIF_GEN_DIR"), "/outquery_retry_arm.rs"));
+    // C07: the per-upstream TCP task's id -> waiter map (send_tcp_query, statements before the socket write, lifted verbatim).
+    // The map is a 4-slot association list with HashMap's insert/contains_key/remove contract; a waiter is a tag that records
+    // whether it was answered.
+    pub struct RespShim {
+        pub tag: u8,
+    }
+    pub static mut ANSWERED_TAG: Option<u8> = None;
+    pub static mut ANSWERED_WITH_ERROR: bool = false;
+    impl RespShim {
+        pub fn send(self, r: Result<dnspkt::DNSPkt, Error>) -> Result<(), ()> {
+            unsafe {
+                ANSWERED_TAG = Some(self.tag);
+                ANSWERED_WITH_ERROR = r.is_err();
+            }
+            std::mem::forget(r);
+            Ok(())
+        }
+    }
+    pub struct QidShim {
+        pub qid: u16,
+    }
+    pub struct TcpMsgShim {
+        pub out_query: QidShim,
+        pub out_reply: RespShim,
+    }
+    pub struct MapShim {
+        pub slots: [Option<(u16, RespShim)>; 4],
+    }
+    impl MapShim {
+        pub fn contains_key(&self, k: &u16) -> bool {
+            let mut i = 0;
+            while i < 4 {
+                if let Some((q, _)) = &self.slots[i] {
+                    if q == k {
+                        return true;
+                    }
+                }
+                i += 1;
+            }
+            false
+        }
+        pub fn insert(&mut self, k: u16, v: RespShim) -> Option<RespShim> {
+            let mut i = 0;
+            while i < 4 {
+                if matches!(&self.slots[i], Some((q, _)) if *q == k) {
+                    return self.slots[i].replace((k, v)).map(|(_, old)| old);
+                }
+                i += 1;
+            }
+            i = 0;
+            while i < 4 {
+                if self.slots[i].is_none() {
+                    self.slots[i] = Some((k, v));
+                    return None;
+                }
+                i += 1;
+            }
+            panic!("harness map full: outside the bound");
+        }
+        pub fn get_tag(&self, k: u16) -> Option<u8> {
+            let mut i = 0;
+            while i < 4 {
+                if let Some((q, r)) = &self.slots[i] {
+                    if *q == k {
+                        return Some(r.tag);
+                    }
+                }
+                i += 1;
+            }
+            None
+        }
+    }
+    pub struct TcpShim {
+        pub qid2reply: MapShim,
+    }
+    include!(concat!(env!("VERIF_GEN_DIR"), "/tcp_register_waiter.rs"));
 }
 
 #[cfg(kani)]
@@ -106,5 +182,44 @@ mod k {
         assert!(gave_up, "a silent upstream ends in a timeout within 6 timer expiries");
         assert!(sent <= 5, "at most 5 transmissions of an upstream query");
         assert!(waited < mx * 66, "the client's failure response is due within a bounded time");
+    }
+
+    /// VERIF: {"p":"C07","tier":"quick","fns":["dns::outquery::TcpNameserver::send_tcp_query (statements before the socket write, lifted from source)"],"bounds":"0..=3 upstream TCP queries already in flight on this connection with arbitrary distinct 16-bit ids, a new query with an arbitrary 16-bit id (ids are drawn at random per query by handle_query_internal, independently of what is in flight, so equal ids are reachable)","oracle":"registering the new query never panics (a panic kills the per-upstream task and with it every waiter and every later TCP query to that upstream); every query already in flight keeps its own waiter under its id (replies are not crossed); the new query is either registered under its id or answered with an error - exactly one of the two","stubs":["statements lifted verbatim from send_tcp_query; HashMap<u16, oneshot::Sender> = 4-slot association list with the same insert/contains_key contract; oneshot::Sender::send = recording stub"],"covers":2,"unwind":6}
+    #[kani::proof]
+    #[kani::unwind(6)]
+    fn c07_tcp_waiter_registration_survives_id_collision() {
+        let n: u8 = kani::any();
+        kani::assume(n <= 3);
+        let ids: [u16; 3] = kani::any();
+        kani::assume(ids[0] != ids[1] && ids[0] != ids[2] && ids[1] != ids[2]);
+        let mut t = TcpShim { qid2reply: MapShim { slots: [None, None, None, None] } };
+        let mut i = 0u8;
+        while i < n {
+            t.qid2reply.slots[i as usize] = Some((ids[i as usize], RespShim { tag: i }));
+            i += 1;
+        }
+        let qid: u16 = kani::any();
+        unsafe {
+            ANSWERED_TAG = None;
+            ANSWERED_WITH_ERROR = false;
+        }
+        let r = lifted_tcp_register_waiter(&mut t, TcpMsgShim { out_query: QidShim { qid }, out_reply: RespShim { tag: 9 } });
+        let collides = (n > 0 && ids[0] == qid) || (n > 1 && ids[1] == qid) || (n > 2 && ids[2] == qid);
+        kani::cover!(collides, "id already in flight");
+        kani::cover!(!collides && n == 3, "fresh id, three in flight");
+        let mut j = 0u8;
+        while j < n {
+            assert!(t.qid2reply.get_tag(ids[j as usize]) == Some(j), "a query already in flight keeps its own waiter (replies are not crossed)");
+            j += 1;
+        }
+        let answered = unsafe { ANSWERED_TAG };
+        assert!(answered.is_none() || answered == Some(9), "no waiter other than the new query's is answered here");
+        let registered = !collides && t.qid2reply.get_tag(qid) == Some(9);
+        let refused = answered == Some(9) && unsafe { ANSWERED_WITH_ERROR };
+        assert!(registered != refused, "the new query is either registered under its id or answered with an error, exactly one of the two");
+        if let Err(e) = r {
+            std::mem::forget(e);
+        }
+        std::mem::forget(t);
     }
 }
